@@ -5,7 +5,7 @@ import FlowCalModel.Data
 
 A file is a `List Nat` of bytes.  `buf.read` returns short data silently at the
 end of the file and reads to the end of the file for a negative count; both are
-modelled.  Text is ISO-8859-1, so characters are bytes.
+modelled (a count of -1 reads to the end of the file, a smaller one raises).  Text is ISO-8859-1, so characters are bytes.
 -/
 namespace FlowCal.File
 open FlowCal.Py FlowCal.Text FlowCal.Data
@@ -16,7 +16,8 @@ abbrev Dict := List (Bytes × Bytes)
 /-- `buf.seek(pos); buf.read(n)`; a negative seek raises. -/
 def readAt (file : Bytes) (pos : Int) (n : Int) : Except PyErr Bytes :=
   if pos < 0 then .error .ValueError
-  else if n < 0 then .ok (file.drop pos.toNat)
+  else if n == -1 then .ok (file.drop pos.toNat)
+  else if n < 0 then .error .ValueError     -- file objects: "read length must be non-negative or -1"
   else .ok ((file.drop pos.toNat).take n.toNat)
 
 structure Header where
@@ -60,6 +61,8 @@ def readTextSeg (file : Bytes) (bgn endo : Int) (delim : Option (Option Nat)) (s
         let b ← readAt file bgn 1
         pure b.head?
   let raw ← readAt file bgn (endo + 1 - bgn)
+  -- a short read (file ends inside the segment) is refused
+  if (raw.length : Int) < endo + 1 - bgn then throw .ValueError
   if raw == [] then
     pure ([], none, false)
   else
